@@ -3,7 +3,7 @@ import os
 from typing import Optional, Sequence, Tuple
 
 from conductor.context import Context
-from conductor.errors import CombineOutputFileConflict
+from conductor.errors import CombineOutputFileConflict, TaskFailed
 from conductor.execution.handle import OperationExecutionHandle
 from conductor.execution.ops.operation import Operation
 from conductor.execution.operation_state import OperationState
@@ -38,7 +38,13 @@ class CombineOutputs(Operation):
     def start_execution(
         self, ctx: Context, slot: Optional[int]
     ) -> OperationExecutionHandle:
-        self._output_path.mkdir(parents=True, exist_ok=True)
+        try:
+            self._output_path.mkdir(parents=True, exist_ok=True)
+        except OSError as ex:
+            # E.g., a file is in the way of the output directory.
+            raise TaskFailed(task_identifier=self._identifier).add_extra_context(
+                str(ex)
+            )
 
         for dep_id, dep_dir in self._deps_output_paths:
             if (
